@@ -14,7 +14,7 @@
 (*   UnitsByFactor (C13)       all available time units of a flow denote one yearly value    *)
 (*   SpecPrecedence (C11)      user spec > automatic sum; a spec'd name is never auto-summed *)
 EXTENDS Dag, TLC
-CONSTANT Small
+CONSTANTS Small, WithPid
 VARIABLE cfg
 Depth == 7
 
@@ -29,7 +29,9 @@ AggMenu == { Empty, [n \in {"b_hh"} |-> [aggr |-> "any", src |-> "b"]], [n \in {
 TargetPool == IF Small THEN {"a_m", "a_y", "a_w", "a_m_hh", "a_y_hh", "b_hh", "c"}
               ELSE {"a_m", "a_y", "a_w", "a_m_hh", "a_y_hh", "b_hh", "c", "e_y", "e_m", "e_m_hh"}
 
-Init == cfg = [fn |-> Empty, data |-> {}, ugrp |-> Empty, bgrp |-> Empty, bpid |-> Empty, upid |-> Empty]
+\* a built-in p_id aggregation (sum of the flow a_m over a pointer column), as in the real rule base
+PidSpec == [n \in {"k_m"} |-> [aggr |-> "sum", src |-> "a_m", by |-> "ptr"]]
+Init == cfg = [fn |-> Empty, data |-> {}, ugrp |-> Empty, bgrp |-> Empty, bpid |-> IF WithPid THEN PidSpec ELSE Empty, upid |-> Empty]
 AddRule == \E r \in RuleMenu : r.name \notin DOMAIN cfg.fn /\
               cfg' = [cfg EXCEPT !.fn = Over(cfg.fn, [n \in {r.name} |-> [args |-> r.args, round |-> r.round]])]
 AddData == \E d \in DataMenu : d \notin cfg.data /\ cfg' = [cfg EXCEPT !.data = @ \cup {d}]
@@ -100,6 +102,21 @@ SpecPrecedence ==
      /\ \A n \in p.auto : n \notin DOMAIN cfg.ugrp => p.grp[n].kind = "grp_sum"
      /\ LET tab == Table(cfg, {t}) IN                                  \* derived time nodes never shadow a rule
         \A n \in DOMAIN tab : tab[n].kind = "time" => n \notin DOMAIN cfg.fn
+
+\* C13 "supplying an input in another time unit gives the same results": replacing a data column by the same flow in
+\* another unit (values tied through the yearly atom, see Dag!Atom) leaves every computable target computable and equal.
+\* With p_id aggregations this is VIOLATED by the pipeline as specified (= as implemented): the aggregation k_m is
+\* only created when its source a_m is a rule or a data column, and derived time-unit nodes are created afterwards,
+\* so a_y supplied instead of a_m loses k_m.  This is the design-level root cause of the known finding of C13.
+Swap(c, d, d2) == [c EXCEPT !.data = (c.data \ {d}) \cup {d2}]
+AltUnitEquivalence ==
+  ValidConfig(cfg) =>
+    \A d \in cfg.data : \A d2 \in DataMenu \cup {"a_d"} :
+       (SameFlow(d, d2) /\ d2 \notin cfg.data /\ ValidConfig(Swap(cfg, d, d2))) =>
+          \A t \in (TargetPool \cup {"k_m"}) \ {d, d2} :
+             Good(cfg, {t}, t) =>
+                /\ Good(Swap(cfg, d, d2), {t}, t)
+                /\ Eval(cfg, {t}, BaseData(cfg), Ver0(cfg), t) = Eval(Swap(cfg, d, d2), {t}, BaseData(Swap(cfg, d, d2)), Ver0(cfg), t)
 
 \* vacuity guard: this is expected to be VIOLATED (a witness configuration exists)
 NoWitness == ~( /\ ValidConfig(cfg)
